@@ -208,6 +208,11 @@ func GenCase(r *rand.Rand, prop string, thorough bool) *Case {
 				[]string{"stale", "crlf", "tail", "tweaked", "noted", "noncompiling", "garbage", "constraint_only", "otherpkg", "torn", "longer", "dir", "noconstraint", "nul", "empty"},
 				[]int{10, 7, 10, 12, 8, 10, 10, 8, 8, 12, 10, 5, 2, 2, 1})
 			st := Step{Op: "corrupt", Pkg: p, Mode: mode, Cut: r.IntN(1001)}
+			if mode == "crlf" && st.Cut%2 == 0 {
+				// the current output after `go fix` (buildtag): the // +build line is gone, //go:build stays (seeded change
+				// C18-13). Derived from draws already made, so every other generated history stays what it was.
+				st.Mode = "gofixed"
+			}
 			if r.IntN(6) == 0 {
 				st.Prefix = "x_"
 			}
@@ -311,7 +316,8 @@ func genCmd(r *rand.Rand, prop string, names, nonlib []string, cur map[string]st
 			st.Prefix = pick(r, []string{"x_", "zz", "v1.gen.", "../lib/"})
 		}
 		if r.IntN(3) == 0 {
-			st.Tags = pick(r, []string{"foo", "foo bar"})
+			// blanks around and between tags are legal (what -tags "$(EXTRA) foo" in a Makefile produces): seeded change C17-13
+			st.Tags = pick(r, []string{"foo", "foo bar", " foo", "foo  bar"})
 		}
 	}
 	st.EnvTags = r.IntN(10) == 0
